@@ -546,11 +546,11 @@ THEOREMS = {
 
 # defects met while building this check that live in files owned by other properties (not repaired here; the harness works around them)
 NOTES_FOR_OTHER_PROPERTIES = [
-    "C15: etl::is_constructible<T, A> uses the functional cast T(declval<A>()), a C-style cast for one argument: "
-    "is_constructible_v<int&, etl::tuple<int&>&> is true, so etl::tuple<int&> r(nonconst_tuple) selects the element-wise constructor "
-    "and does not compile (harness copies from a const tuple)",
     "C15: etl::is_nothrow_swappable<T const> is a hard error instead of false (reached through the noexcept specification of pair::swap), "
     "so std::is_swappable_v<etl::pair<int, int const>> does not compile",
     "C15: etl::unwrap_ref_decay has its condition inverted and the primary etl::unwrap_reference is undefined "
     "(bind_front does not use it any more: it stores decay_t<BoundArgs>)",
+    "toolchain: g++-12 does not accept `&f != nullptr` as a constant expression when f is an inline (weak) function or an in-class "
+    "defined member function, so etl::not_fn<&f>() (static_assert(ConstFn != nullptr)) only compiles for targets with internal "
+    "linkage or non-inline definitions; the harness uses targets in an unnamed namespace",
 ]
